@@ -140,6 +140,46 @@ pub fn run(rep: &mut Report) {
             rep.sample(json!({"pattern": pattern, "message": ctx.message, "expected": text_of(&expected)}));
         }
     });
+    // every maximum width 1..=400 against right-aligned multi-byte texts of 400 characters (a width that falls on
+    // the character straddling some internal block boundary)
+    run_cases(rep, "sweep", 3 * 400 * 2, |rep, rng, idx| {
+        let unit = ["é", "日", "𝄞"][(idx % 3) as usize];
+        let m = 1 + ((idx / 3) % 400) as usize;
+        let nested = (idx / 1200) % 2 == 1;
+        let text: String = unit.repeat(400);
+        let nodes = if nested {
+            vec![Node::Fmt(Kind::Group(vec![Node::Fmt(Kind::Message, Some(Spec { fill: None, right: Some(true), min: Some(2), max: None }))]),
+                Some(Spec { fill: None, right: None, min: None, max: Some(m) }))]
+        } else {
+            vec![Node::Fmt(Kind::Message, Some(Spec { fill: None, right: Some(true), min: Some(m.min(3)), max: Some(m) }))]
+        };
+        let pattern = print(&nodes, rng, false);
+        let mut ctx = gen_ctx(rng, &[]);
+        ctx.message = text;
+        rep.case_enumerated(true);
+        rep.count("max_width_sweep_cases", 1);
+        let Ok(enc) = trap::catch(|| PatternEncoder::new(&pattern)) else { return };
+        let now = Utc::now();
+        let expected = text_of(&render(&nodes, &ctx, &now.with_timezone(&Local), &now));
+        let pieces = vec![ctx.message.clone()];
+        let mut w = CapW::new();
+        match trap::catch(|| with_record(&ctx, &pieces, |rec| enc.encode(&mut w, rec))) {
+            Ok(Ok(())) => {
+                rep.count("encodings_compared", 1);
+                match String::from_utf8(w.bytes.clone()) {
+                    Err(e) => rep.violation("C10:invalid-utf8", json!({"pattern": pattern, "message": format!("{} x 400", unit), "what": e.to_string()})),
+                    Ok(got) => {
+                        if got != expected {
+                            rep.violation("C10:width-law:long-text", json!({"pattern": pattern, "message": format!("{} x 400", unit),
+                                "expected_characters": expected.chars().count(), "got_characters": got.chars().count()}));
+                        }
+                    }
+                }
+            }
+            Ok(Err(e)) => rep.violation("C10:encode-returned-error", json!({"pattern": pattern, "error": e.to_string()})),
+            Err(p) => rep.violation(&format!("C10:panic:encode:{}", if p.in_repo() { p.site() } else { "std".into() }), json!({"pattern": pattern, "panic": p.message})),
+        }
+    });
     // texts of thousands of characters arriving in one piece, widths beyond them
     run_cases(rep, "big", 600, |rep, rng, idx| {
         let len = *rng.pick(&[255usize, 256, 257, 2047, 2048, 2049, 2100, 2500, 4095, 4096, 4097, 6000]);
